@@ -78,3 +78,237 @@ def gzip_clock(value):
         yield
     finally:
         gzip.time = real
+
+
+# --------------------------------------------------------------------------
+# fault injection / call counting at the Python-visible filesystem boundary
+
+import builtins
+import io
+
+
+class _FaultyRaw(io.RawIOBase):
+    def __init__(self, raw, inj, label):
+        self._raw = raw
+        self._inj = inj
+        self._label = label
+
+    def readable(self):
+        return True
+
+    def seekable(self):
+        return self._raw.seekable()
+
+    def seek(self, *a):
+        return self._raw.seek(*a)
+
+    def tell(self):
+        return self._raw.tell()
+
+    def fileno(self):
+        return self._raw.fileno()
+
+    def readinto(self, b):
+        self._inj._hit('read', self._label)
+        return self._raw.readinto(b)
+
+    def close(self):
+        if not self.closed:
+            try:
+                self._raw.close()
+            finally:
+                super().close()
+
+
+class _EntryProxy:
+    def __init__(self, entry, inj):
+        self._e = entry
+        self._inj = inj
+        self.name = entry.name
+        self.path = entry.path
+
+    def __fspath__(self):
+        return self._e.path
+
+    def is_dir(self, follow_symlinks=True):
+        self._inj._hit('is_dir', self._e.path)
+        return self._e.is_dir(follow_symlinks=follow_symlinks)
+
+    def is_file(self, follow_symlinks=True):
+        return self._e.is_file(follow_symlinks=follow_symlinks)
+
+    def is_symlink(self):
+        return self._e.is_symlink()
+
+    def stat(self, follow_symlinks=True):
+        self._inj._hit('entry_stat', self._e.path)
+        return self._e.stat(follow_symlinks=follow_symlinks)
+
+    def inode(self):
+        return self._e.inode()
+
+
+class _ScandirProxy:
+    def __init__(self, it, inj, path):
+        self._it = it
+        self._inj = inj
+        self._path = path
+
+    def __iter__(self):
+        return self
+
+    def __next__(self):
+        self._inj._hit('readdir', self._path)
+        return _EntryProxy(next(self._it), self._inj)
+
+    def __enter__(self):
+        return self
+
+    def __exit__(self, *a):
+        self._it.close()
+        return False
+
+    def close(self):
+        self._it.close()
+
+
+class FaultInjector:
+    """Counts the filesystem calls gemato issues for paths under @root and
+    makes the @nth one (0-based) fail with OSError(@err).  With nth=None it
+    only counts.  `only` restricts faults to a path (every call on it fails:
+    a permanently unreadable object)."""
+
+    def __init__(self, root, nth=None, err=5, only=None, kinds=None):
+        self.root = os.path.realpath(root)
+        self.nth = nth
+        self.err = err
+        self.only = os.path.join(self.root, only) if only else None
+        self.kinds = kinds
+        self.count = 0
+        self.log = []
+        self.fired = False
+        self.fired_call = None
+        self.fired_phase = None
+        self.phase = 'scan'
+        self.fds = set()
+
+    def _under(self, path):
+        try:
+            p = os.fspath(path)
+        except TypeError:
+            return False
+        if isinstance(p, bytes):
+            p = os.fsdecode(p)
+        p = os.path.abspath(p)
+        return p == self.root or p.startswith(self.root + os.sep)
+
+    def _hit(self, kind, path):
+        if kind in ('is_dir', 'entry_stat') and self.kinds is None:
+            # os.walk itself tolerates errors of DirEntry.is_dir() (the
+            # object is then opened like a file); not a fault site
+            return
+        if self.kinds is not None and kind not in self.kinds:
+            return
+        p = os.fspath(path) if not isinstance(path, int) else f'<fd {path}>'
+        idx = self.count
+        self.count += 1
+        self.log.append((kind, p))
+        fail = False
+        if self.only is not None:
+            ap = os.path.abspath(p) if not isinstance(path, int) else p
+            fail = (ap == self.only)
+        elif self.nth is not None and idx == self.nth:
+            fail = True
+        if fail:
+            self.fired = True
+            if self.fired_call is None:
+                self.fired_call = f'{kind}({p})'
+                self.fired_phase = self.phase
+            raise OSError(self.err, os.strerror(self.err), p)
+
+    def __enter__(self):
+        inj = self
+        self._real = dict(os_open=os.open, os_stat=os.stat,
+                          os_fstat=os.fstat, os_scandir=os.scandir,
+                          os_close=os.close, b_open=builtins.open,
+                          io_open=io.open, os_lstat=os.lstat)
+        real = self._real
+
+        def os_open(path, flags, *a, **kw):
+            if inj._under(path):
+                if flags & (os.O_WRONLY | os.O_RDWR | os.O_CREAT):
+                    inj.phase = 'save'
+                inj._hit('os.open', path)
+                fd = real['os_open'](path, flags, *a, **kw)
+                inj.fds.add(fd)
+                return fd
+            return real['os_open'](path, flags, *a, **kw)
+
+        def os_close(fd):
+            inj.fds.discard(fd)
+            return real['os_close'](fd)
+
+        def os_stat(path, *a, **kw):
+            if not isinstance(path, int) and not kw.get('dir_fd') \
+                    and inj._under(path):
+                inj._hit('os.stat', path)
+            return real['os_stat'](path, *a, **kw)
+
+        def os_lstat(path, *a, **kw):
+            if not kw.get('dir_fd') and inj._under(path):
+                inj._hit('os.lstat', path)
+            return real['os_lstat'](path, *a, **kw)
+
+        def os_fstat(fd):
+            if fd in inj.fds:
+                inj._hit('os.fstat', fd)
+            return real['os_fstat'](fd)
+
+        def os_scandir(path='.'):
+            if inj._under(path):
+                inj._hit('scandir', path)
+                return _ScandirProxy(real['os_scandir'](path), inj,
+                                     os.fspath(path))
+            return real['os_scandir'](path)
+
+        def b_open(file, mode='r', *a, **kw):
+            is_fd = isinstance(file, int)
+            if (is_fd and file in inj.fds) or (not is_fd
+                                               and inj._under(file)):
+                if any(c in mode for c in 'wax+'):
+                    inj.phase = 'save'
+                    return real['b_open'](file, mode, *a, **kw)
+                inj._hit('open', file)
+                raw = io.FileIO(file, 'r', closefd=kw.get('closefd', True))
+                if is_fd:
+                    inj.fds.add(file)
+                fr = _FaultyRaw(raw, inj, file)
+                buf = io.BufferedReader(fr)
+                if 'b' in mode:
+                    return buf
+                tkw = {k: v for k, v in kw.items()
+                       if k in ('encoding', 'errors', 'newline')}
+                return io.TextIOWrapper(buf, **tkw)
+            return real['b_open'](file, mode, *a, **kw)
+
+        os.open = os_open
+        os.close = os_close
+        os.stat = os_stat
+        os.lstat = os_lstat
+        os.fstat = os_fstat
+        os.scandir = os_scandir
+        builtins.open = b_open
+        io.open = b_open
+        return self
+
+    def __exit__(self, *a):
+        r = self._real
+        os.open = r['os_open']
+        os.close = r['os_close']
+        os.stat = r['os_stat']
+        os.lstat = r['os_lstat']
+        os.fstat = r['os_fstat']
+        os.scandir = r['os_scandir']
+        builtins.open = r['b_open']
+        io.open = r['io_open']
+        return False
